@@ -28,6 +28,11 @@ def run(ctx):
 
 
 def check_cfg(ctx, fx, cfg):
+    # R13.10 (shared with C01) "messages sent to its address are handled too": every payload that reaches the loop runs the
+    # handler of its message on all its paths
+    if cfg != "bare":
+        from props import c01 as _c01
+        core.shared(ctx, "R13.10", _c01.check_payloads, ctx, fx, cfg, "R13.10")
     # R13.6 the stream the loop polls is the user's stream itself: every caller of the stream-loop constructor hands over
     # its own parameter unmodified (a wrapping adapter sits between the items and the loop and can stall or drop them)
     found = loops.find_loops(fx)
